@@ -1,7 +1,7 @@
 SPECIFICATION CSpec
 CONSTANTS
   Shapes = {"unary", "cstream", "sstream", "bidi"}
-  Points = {"running", "blockedRecv", "blockedSend", "returned", "idleAfterSend"}
+  Points = {"running", "blockedRecv", "blockedFirstRecv", "blockedSend", "returned", "idleAfterSend"}
 INVARIANTS NoSpuriousDone
 PROPERTY CancelReleases
 CHECK_DEADLOCK FALSE
